@@ -25,8 +25,10 @@ pub fn check_core(ctx: &mut Ctx, ps: &mut Parsers, subsets: &[u32], text: &str, 
         let case = Case::new("core", text, *e, "bundled");
         ctx.begin(&case);
         match parse_image(ps, text, *e) {
-            Err(_) => {
-                ctx.count("panic_in_parse(C03)");
+            Err(p) => {
+                // a core recipe has to parse (to the same recipe) under EVERY subset: a panic under this one is this
+                // property's business too, not only C03's
+                ctx.violation(&case, "core_identical", &format!("panic_under_subset|{}", crate::core::strip_digits(&p.message).chars().take(60).collect::<String>()), format!("core recipe makes the parser panic under extensions {:#x}: {} at {}", e, p.message, p.location));
                 return;
             }
             Ok((errors, img)) => {
@@ -351,9 +353,12 @@ pub fn check_converse(ctx: &mut Ctx, ps: &mut Parsers, subsets: &[u32]) {
                     let case = Case::new(&format!("converse:{}", c.name), text.as_str(), *e, "bundled");
                     ctx.begin(&case);
                     let parser = ps.parser(*e, "bundled").clone();
-                    let Ok(r) = crate::core::guarded(|| parser.parse(&text)) else {
-                        ctx.count("panic_in_parse(C03)");
-                        continue;
+                    let r = match crate::core::guarded(|| parser.parse(&text)) {
+                        Ok(r) => r,
+                        Err(p) => {
+                            ctx.violation(&case, "converse", &format!("{}|panic", c.name), format!("with {:?} disabled {v:?} makes the parser panic: {} at {}", c.ext, p.message, p.location));
+                            continue;
+                        }
                     };
                     let errors: Vec<String> = r.report().errors().map(|e| e.message.to_string()).collect();
                     if !errors.is_empty() {
